@@ -53,7 +53,11 @@ func rootDir(shard, replica uint64) string {
 }
 
 func digest(b []byte) string {
-	return fmt.Sprintf("%d:%08x", len(b), crc32.ChecksumIEEE(b))
+	d := b
+	if digestSkip > 0 && len(d) >= digestSkip {
+		d = d[digestSkip:] // stream cases: the header carries a time stamp
+	}
+	return fmt.Sprintf("%d:%08x", len(b), crc32.ChecksumIEEE(d))
 }
 
 func readFile(fs hk.IFS, p string) []byte {
@@ -453,6 +457,10 @@ func run(a vh.Args) {
 				hk.SnapshotChunkSize, gc0, to0, slots0, raftio.TransportBinVersion, pb.LastChunkCount,
 				hexs(hk.SnapshotFlagFilename), hk.SnapshotHeaderSize)
 			st.Case("const", false, "")
+			continue
+		}
+		if len(f) >= 2 && f[1] == "T" {
+			runStream(parseTCase(line), out, st)
 			continue
 		}
 		c := parseCase(line)
